@@ -40,13 +40,19 @@ def build(repo="/repo", release=False):
 
 
 class Rac:
-    def __init__(self, repo="/repo", release=False):
+    def __init__(self, repo="/repo", release=False, data_home=None):
         self.bin = build(repo, release)
         self.repo = repo
-        env = dict(os.environ, HOME="/var/tmp", XDG_DATA_HOME="/var/tmp/anything-verif-data")
-        self.p = subprocess.Popen([self.bin], stdin=subprocess.PIPE, stdout=subprocess.PIPE, stderr=subprocess.DEVNULL, text=True, bufsize=1, env=env)
+        self.data_home = data_home
+        self.p = subprocess.Popen([self.bin], stdin=subprocess.PIPE, stdout=subprocess.PIPE, stderr=subprocess.DEVNULL, text=True, bufsize=1, env=self._env())
         pong = self.ask({"cmd": "ping"})
         self.debug_assertions = pong.get("debug_assertions")
+
+    def _env(self):
+        """data_home=None: a private in-memory database per process; data_home=<dir>: the on-disk database under <dir>, shared by every process given the same dir"""
+        if self.data_home:
+            return dict(os.environ, HOME=self.data_home, XDG_DATA_HOME=self.data_home, RAC_DB_DISK="1")
+        return dict(os.environ, HOME="/var/tmp", XDG_DATA_HOME="/var/tmp/anything-verif-data")
 
     def ask(self, cmd):
         return self.ask_many([cmd])[0]
@@ -80,8 +86,7 @@ class Rac:
             self.p.kill()
         except Exception:
             pass
-        env = dict(os.environ, HOME="/var/tmp", XDG_DATA_HOME="/var/tmp/anything-verif-data")
-        self.p = subprocess.Popen([self.bin], stdin=subprocess.PIPE, stdout=subprocess.PIPE, stderr=subprocess.DEVNULL, text=True, bufsize=1, env=env)
+        self.p = subprocess.Popen([self.bin], stdin=subprocess.PIPE, stdout=subprocess.PIPE, stderr=subprocess.DEVNULL, text=True, bufsize=1, env=self._env())
         self.ask({"cmd": "ping"})
 
     def _ask_chunk_timed(self, part, timeout_s):
